@@ -153,6 +153,10 @@ ENV_VARIANTS = [
     {"name": "busy-thread", "busy_thread": True},
     {"name": "ast-hand-built-shared-nodes", "vars": {"VERIF_AST_PROVENANCE": "hashcons"}},
 ]
+ENV_NOTE = (" One generated-search shard and one slice of the exhaustive part are repeated in child interpreters that differ "
+            "from the default one (python -O, other TZ and hash seed, a busy second thread using the library, trees pickled in "
+            "another interpreter, trees built by hand with shared nodes and derived literals, a lowered decimal precision); "
+            "their cases are counted in the classes cases_in_env_variant_*.")
 _MARK = "@@VP-CHILD-RESULT@@"
 
 
@@ -528,7 +532,8 @@ def do_run(pid, mod, tier, seed, scale):
     cov = {
         "evaluations": int(evaluations),
         "distinct_nontrivial": len(nontrivial),
-        "rule": getattr(mod, "RULE", ""),
+        "rule": getattr(mod, "RULE", "") + (ENV_NOTE if os.environ.get("VERIF_NO_ENV_VARIANTS") != "1" else ""),
+        "environment_variants": [t["env"]["name"] for t in tasks if t.get("env")],
         "samples": samples + fail_samples,
         "classes": {k: v for k, v in sorted(classes.items())},
         "regression_replays_run": replayed,
